@@ -1265,6 +1265,13 @@ impl TryFrom<&Generator> for GenerateResult {
         if generator.partitioner != res.partitioner {
             return Err(anyhow!("partition values don't match"));
         }
+        // a partition is a slice of the (builder, app) sequence that is left after applying the
+        // selection: what a narrower selection configures is not contained in a wider one's slice.
+        if generator.partitioner.is_some()
+            && (res.builders != generator.builders || res.apps != generator.apps)
+        {
+            return Err(anyhow!("partitioned builders/apps don't match"));
+        }
         if !res.builders.is_superset(&generator.builders) {
             return Err(anyhow!("builders don't match"));
         }
